@@ -7,11 +7,11 @@
 (*   owner  log: exec(i, onOwnerThread)                                       *)
 EXTENDS ThreadProxy, Json, IOUtils, TLCExt, TLC
 Traces == JsonDeserialize(IOEnv.TRACE_FILE)
-VARIABLES c, tid, lc, lo
-tvars == <<c, tid, lc, lo>>
+VARIABLES c, tid, lc, lo, last
+tvars == <<c, tid, lc, lo, last>>
 CL == Traces[tid].caller
 OL == Traces[tid].owner
-TInit == tid \in 1 .. Len(Traces) /\ lc = 1 /\ lo = 1 /\ c = <<>>
+TInit == tid \in 1 .. Len(Traces) /\ lc = 1 /\ lo = 1 /\ c = <<>> /\ last = 0
 Has(i) == i \in DOMAIN c
 Put(i, v) == [x \in (DOMAIN c) \cup {i} |-> IF x = i THEN v ELSE c[x]]
 CallerStep ==
@@ -21,7 +21,7 @@ CallerStep ==
           /\ LET r == InvokeResult(e.kind, e.src, IF e.closed = 1 THEN "closed" ELSE "running") IN
                /\ e.ret = r.ret                                         \* what the call returned to its caller at once
                /\ (e.src = "owner" => e.execthread = "owner")           \* direct call on the owner's loop
-               /\ c' = Put(e.i, [kind |-> e.kind, src |-> e.src, st |-> r.st, execs |-> IF r.st = "executed" THEN 1 ELSE 0])
+               /\ c' = Put(e.i, [kind |-> e.kind, src |-> e.src, st |-> r.st, execs |-> IF r.st = "executed" THEN 1 ELSE 0, rep |-> "none"])
        \/ /\ e.a = "final" /\ Has(e.i)                                   \* a coroutine caller got its result
           /\ IsCoro(c[e.i].kind) /\ c[e.i].st = "executed"              \* only after the body ran on the owner
           /\ \/ e.ret = Relayed(c[e.i].kind) /\ e.val = e.i              \* exactly this call's value / exception
@@ -32,16 +32,23 @@ CallerStep ==
                                  /\ (c[i].st = "dropped" => c[i].execs = 0)
                                  /\ (c[i].st = "refused" => c[i].execs = 0)
                                  /\ c[i].st # "queued"        \* the owner's loop kept running: every queued call was executed
+                                 \* "must return nothing": a queued plain call that handed back a value was reported as a TypeError
+                                 /\ ((c[i].st = "executed" /\ c[i].src = "other" /\ ~IsCoro(c[i].kind)) => c[i].rep = Reported(c[i].kind))
           /\ e.blocked = 0
           /\ UNCHANGED c
-  /\ lc' = lc + 1 /\ UNCHANGED <<lo, tid>>
+  /\ lc' = lc + 1 /\ UNCHANGED <<lo, tid, last>>
 OwnerStep ==
   /\ lo <= Len(OL)
   /\ LET e == OL[lo] IN
-       /\ e.a = "exec" /\ Has(e.i)                                      \* only a call that was invoked
-       /\ e.thread = "owner"                                            \* on the owner's thread, never the caller's
-       /\ \/ (c[e.i].st = "queued" /\ c' = [c EXCEPT ![e.i].st = "executed", ![e.i].execs = 1])
-          \/ (c[e.i].st = "executed" /\ c[e.i].src = "owner" /\ c[e.i].execs = 1 /\ UNCHANGED c)   \* direct call, logged on the owner
+       \/ /\ e.a = "exec" /\ Has(e.i)                                      \* only a call that was invoked
+          /\ e.thread = "owner"                                            \* on the owner's thread, never the caller's
+          /\ \/ (c[e.i].st = "queued" /\ c' = [c EXCEPT ![e.i].st = "executed", ![e.i].execs = 1])
+             \/ (c[e.i].st = "executed" /\ c[e.i].src = "owner" /\ c[e.i].execs = 1 /\ UNCHANGED c)   \* direct call, logged on the owner
+          /\ last' = e.i
+       \* the owner's loop reports an error for the callback it just ran: the queued plain call executed last
+       \/ /\ e.a = "report" /\ last # 0 /\ c[last].src = "other" /\ ~IsCoro(c[last].kind) /\ c[last].rep = "none"
+          /\ e.what = Reported(c[last].kind) /\ e.what # "none"
+          /\ c' = [c EXCEPT ![last].rep = e.what] /\ UNCHANGED last
   /\ lo' = lo + 1 /\ UNCHANGED <<lc, tid>>
 TNext == CallerStep \/ OwnerStep
 TSpec == TInit /\ [][TNext]_tvars
